@@ -1,4 +1,5 @@
 """C07 — every error carries a truthful location and include trace."""
+import os
 import random
 from common import *
 import treecorr, docgen, layout, meta
@@ -126,6 +127,21 @@ def run(tier, out, model_ok, proof):
                     files = {"root.jst": doc}
                 markers[k] = True
                 projects.append(files)
+    # build-time faults in a file reached through the SECOND of two includers that share a base name
+    # (different directories, or names that differ only by letter case), each on different lines:
+    # the trace has to name the includer that was really followed
+    bad_schema = b'TYPE @tb\n{\n  "bad": @zznosuchtype\n}\n'
+    for fault in (bad_schema, b"TYPE @ta any\n", b"GET /dup\n  200 any\n  200\n"):
+        for first, second in (("a/inc.jst", "b/inc.jst"), ("Inc.jst", "inc.jst"), ("a/inc.jst", "a/sub/inc.jst")):
+            d1, d2 = os.path.dirname(first), os.path.dirname(second)
+            j = lambda d, n: (d + "/" if d else "") + n
+            files = {"root.jst": ("JSIGHT 0.3\nINCLUDE %s\nGET /mid\n  200 any\n\nINCLUDE %s\n" % (first, second)).encode(),
+                     first: b"INCLUDE ta.jst\n", j(d1, "ta.jst"): b"TYPE @ta any\n",
+                     second: b"# second includer\n\nINCLUDE tb.jst\n", j(d2, "tb.jst"): fault}
+            projects.append(files)
+            projects.append(dict(files, **{"root.jst": ("JSIGHT 0.3\nINCLUDE %s\n" % first).encode(),
+                                           first: ("INCLUDE ta.jst\n\n\nINCLUDE %s\n" % os.path.relpath(second, d1 or ".")).encode()})
+                            if second.startswith(d1 + "/") and d1 else files)
     cases = [treecorr.project_case("e%d" % i, f) for i, f in enumerate(projects)]
     res, crashes = docgen.run_build(cases)
     nerr = 0
